@@ -36,6 +36,65 @@ META = {
 }
 
 
+def team_gate_rules(ctx: Ctx, rid: str):
+    """bookResources: all-members gate of a team (shared by C03 R03.1 / C07 R07.5)."""
+    brs = ctx.repo.func("TaskScenario.bookResources")
+    fd = ctx.dep.of(brs)
+    g = cfg_of(brs)
+    calls = calls_named(brs, "bookResource")
+    if not calls:
+        raise AnchorMissing("bookResources does not call bookResource")
+    loops = [n for n in own_nodes(brs) if isinstance(n, ast.For)]
+    for c in calls:
+        node = g.node_containing(c)
+        c_atoms = ctl_only(fd.ctl_atoms(node))
+        ok = "call:available" in c_atoms and "call:limitsOk" in c_atoms
+        ctx.ob(rid, f"{brs.qual}: {norm(c)}", (brs, c), ok,
+               "member booking is control dependent on available() and limitsOk() of the team gate" if ok else
+               "a team member can be booked although the all-members-available gate was not evaluated",
+               key=key_of(rid, brs, c))
+        # the booking loop and the gate loop iterate over the same collection
+        bl = next((l for l in loops if any(x is c for x in ast.walk(l))), None)
+        gates = [l for l in loops if l is not bl and any(isinstance(x, ast.Call) and isinstance(x.func, ast.Attribute)
+                                                          and x.func.attr == "available" for x in ast.walk(l))]
+        ok = bl is not None and any(norm(gl.iter) == norm(bl.iter) for gl in gates)
+        ctx.ob(rid, f"{brs.qual}: gate and booking iterate {norm(bl.iter) if bl is not None else '?'}", (brs, bl or c), ok,
+               "gate loop and booking loop run over the same members" if ok else "the gate does not examine the same members that are booked",
+               key=key_of(rid, brs, None, "same collection"))
+        # the gate applies to teams of effort tasks
+        for gl in gates:
+            encl = getattr(gl, "_parent", None)
+            t = norm(encl.test) if isinstance(encl, ast.If) else ""
+            ok = "effort > 0" in t and "len(" in t and "> 1" in t
+            ctx.ob(rid, f"{brs.qual}: gate condition {t}", (brs, gl), ok,
+                   "gate runs for effort tasks with more than one member" if ok else "gate condition no longer covers every team of an effort task",
+                   key=key_of(rid, brs, None, "gate condition"))
+        # the gate asks, for EVERY member, both questions for the same slot: available(slot) and limitsOk(slot, member)
+        for gl in gates:
+            lv = gl.target.id if isinstance(gl.target, ast.Name) else None
+            av = [x for x in ast.walk(gl) if isinstance(x, ast.Call) and isinstance(x.func, ast.Attribute) and x.func.attr == "available"]
+            lim = [x for x in ast.walk(gl) if isinstance(x, ast.Call) and isinstance(x.func, ast.Attribute) and x.func.attr == "limitsOk"]
+            per_member = [x for x in lim if len(x.args) >= 2 and isinstance(x.args[1], ast.Name) and x.args[1].id == lv
+                          or any(k.arg == "resource" and isinstance(k.value, ast.Name) and k.value.id == lv for k in x.keywords)]
+            same_slot = bool(per_member) and bool(av) and all(
+                x.args and norm(x.args[0]) == norm(av[0].args[0]) for x in per_member + av if x.args)
+            ok = bool(per_member) and same_slot
+            ctx.ob(rid, f"{brs.qual}: gate loop asks limitsOk(slot, {lv}) per member", (brs, gl), ok,
+                   "the gate evaluates the task limits for every member (limits restricted to one resource are seen) and for the "
+                   "slot it tested for availability" if ok else
+                   "the team gate does not call limitsOk(slot, member) for each member inside the gate loop: a task limit "
+                   "restricted to one member does not hold the whole team back, so members are booked for different instants",
+                   key=key_of(rid, brs, None, "gate per-member limits"))
+    # failing gate leaves the function
+    for n in own_nodes(brs):
+        if isinstance(n, ast.If) and norm(n.test) == "not all_available":
+            ok = any(isinstance(s, ast.Return) for s in n.body)
+            ctx.ob(rid, f"{brs.qual}: failing gate returns", (brs, n), ok,
+                   "nobody is booked when a member is unavailable" if ok else "a failing gate does not stop the booking",
+                   key=key_of(rid, brs, None, "gate return"))
+
+
+
 def booking_guard_rule(ctx: Ctx, rid: str):
     """bookResource books only under the availability and task-limit facts for the same slot (C03 R03.6 / C05 R05.8 / C07)."""
     br = ctx.repo.func("TaskScenario.bookResource")
@@ -69,57 +128,9 @@ def run(ctx: Ctx):
     g = cfg_of(brs)
 
     # ---------------------------------------------------------------- R03.1
+    team_gate_rules(ctx, "R03.1")
     calls = calls_named(brs, "bookResource")
-    if not calls:
-        raise AnchorMissing("bookResources does not call bookResource")
     loops = [n for n in own_nodes(brs) if isinstance(n, ast.For)]
-    for c in calls:
-        node = g.node_containing(c)
-        c_atoms = ctl_only(fd.ctl_atoms(node))
-        ok = "call:available" in c_atoms and "call:limitsOk" in c_atoms
-        ctx.ob("R03.1", f"{brs.qual}: {norm(c)}", (brs, c), ok,
-               "member booking is control dependent on available() and limitsOk() of the team gate" if ok else
-               "a team member can be booked although the all-members-available gate was not evaluated",
-               key=key_of("R03.1", brs, c))
-        # the booking loop and the gate loop iterate over the same collection
-        bl = next((l for l in loops if any(x is c for x in ast.walk(l))), None)
-        gates = [l for l in loops if l is not bl and any(isinstance(x, ast.Call) and isinstance(x.func, ast.Attribute)
-                                                          and x.func.attr == "available" for x in ast.walk(l))]
-        ok = bl is not None and any(norm(gl.iter) == norm(bl.iter) for gl in gates)
-        ctx.ob("R03.1", f"{brs.qual}: gate and booking iterate {norm(bl.iter) if bl is not None else '?'}", (brs, bl or c), ok,
-               "gate loop and booking loop run over the same members" if ok else "the gate does not examine the same members that are booked",
-               key=key_of("R03.1", brs, None, "same collection"))
-        # the gate applies to teams of effort tasks
-        for gl in gates:
-            encl = getattr(gl, "_parent", None)
-            t = norm(encl.test) if isinstance(encl, ast.If) else ""
-            ok = "effort > 0" in t and "len(" in t and "> 1" in t
-            ctx.ob("R03.1", f"{brs.qual}: gate condition {t}", (brs, gl), ok,
-                   "gate runs for effort tasks with more than one member" if ok else "gate condition no longer covers every team of an effort task",
-                   key=key_of("R03.1", brs, None, "gate condition"))
-        # the gate asks, for EVERY member, both questions for the same slot: available(slot) and limitsOk(slot, member)
-        for gl in gates:
-            lv = gl.target.id if isinstance(gl.target, ast.Name) else None
-            av = [x for x in ast.walk(gl) if isinstance(x, ast.Call) and isinstance(x.func, ast.Attribute) and x.func.attr == "available"]
-            lim = [x for x in ast.walk(gl) if isinstance(x, ast.Call) and isinstance(x.func, ast.Attribute) and x.func.attr == "limitsOk"]
-            per_member = [x for x in lim if len(x.args) >= 2 and isinstance(x.args[1], ast.Name) and x.args[1].id == lv
-                          or any(k.arg == "resource" and isinstance(k.value, ast.Name) and k.value.id == lv for k in x.keywords)]
-            same_slot = bool(per_member) and bool(av) and all(
-                x.args and norm(x.args[0]) == norm(av[0].args[0]) for x in per_member + av if x.args)
-            ok = bool(per_member) and same_slot
-            ctx.ob("R03.1", f"{brs.qual}: gate loop asks limitsOk(slot, {lv}) per member", (brs, gl), ok,
-                   "the gate evaluates the task limits for every member (limits restricted to one resource are seen) and for the "
-                   "slot it tested for availability" if ok else
-                   "the team gate does not call limitsOk(slot, member) for each member inside the gate loop: a task limit "
-                   "restricted to one member does not hold the whole team back, so members are booked for different instants",
-                   key=key_of("R03.1", brs, None, "gate per-member limits"))
-    # failing gate leaves the function
-    for n in own_nodes(brs):
-        if isinstance(n, ast.If) and norm(n.test) == "not all_available":
-            ok = any(isinstance(s, ast.Return) for s in n.body)
-            ctx.ob("R03.1", f"{brs.qual}: failing gate returns", (brs, n), ok,
-                   "nobody is booked when a member is unavailable" if ok else "a failing gate does not stop the booking",
-                   key=key_of("R03.1", brs, None, "gate return"))
 
     # ---------------------------------------------------------------- R03.2
     facts = facts_of(brs)
